@@ -1,1 +1,44 @@
-From Morph Require Import Base.UStr.
+(* C10 — the same table gives the same statements whatever the source format.  Statements only.
+   The readers are third-party code: Model/Data.v `arrive` states what each one hands over (measured by the correspondence
+   on every run); the theorems say that, given that, what reaches term construction is the same in every format.
+   Partial: tables of strings and NULLs; CSV / TSV / Excel (text readers), XML, tabular views, columnar files, SQL queries.
+   JSON and SQL tables (which filter NULLs before pandas sees them) and in-memory sources are correspondence only. *)
+From Coq Require Import String.
+From Morph Require Import Base.UStr Model.Terms Model.Data Proofs.DataP Proofs.ReadersP.
+Local Open Scope N_scope.
+
+(* for every reader that hands over cells one by one: exactly the rows whose referenced cells are all strings that are
+   not null tokens are delivered, and every referenced column reads exactly the string of the table -- no character
+   added, dropped or altered, NULL in one is NULL in all *)
+Theorem format_independent_reading_partial : forall k t refs na f,
+  string_kind k = true -> string_table t -> refs <> [] -> In [] na -> arrive k refs t = Ok f ->
+  forall x, In x (map (reading refs) (preprocess na refs f)) <->
+            exists r, In r (t_rows t) /\ good (t_cols t) refs na r /\ x = canon_reading (t_cols t) refs r.
+Proof. exact format_independent_reading. Qed.
+Print Assumptions format_independent_reading_partial.
+
+Theorem two_formats_same_frame_partial : forall k1 k2 t refs na f1 f2,
+  string_kind k1 = true -> string_kind k2 = true -> string_table t -> refs <> [] -> In [] na ->
+  arrive k1 refs t = Ok f1 -> arrive k2 refs t = Ok f2 ->
+  forall x, In x (map (reading refs) (preprocess na refs f1)) <-> In x (map (reading refs) (preprocess na refs f2)).
+Proof. exact two_formats_same_reading. Qed.
+Print Assumptions two_formats_same_frame_partial.
+
+(* non-vacuity, and the values fixtures avoid: blanks at the edges, quotes, digits with leading zeros, words like None *)
+Definition ex_table : table :=
+  {| t_cols := [u "id"; u "v"];
+     t_rows := [[VStr (u "01"); VStr (u " a ""b"" ")]; [VStr (u "2"); VNull]; [VStr (u "3"); VStr (u "None")]; [VStr (u "4"); VStr []]] |}.
+Example ex_table_reading :
+  string_table ex_table /\
+  forall k, string_kind k = true ->
+    match arrive k [u "id"; u "v"] ex_table with
+    | Ok f => map (reading [u "id"; u "v"]) (preprocess [[]] [u "id"; u "v"] f)
+              = [[Some (u "01"); Some (u " a ""b"" ")]; [Some (u "3"); Some (u "None")]]
+    | Err _ => False
+    end.
+Proof.
+  split.
+  - split; intros r Hr; vm_compute in Hr; repeat (destruct Hr as [<-|Hr]; [reflexivity|]); contradiction.
+  - intros k Hk. destruct k; try discriminate; vm_compute; reflexivity.
+Qed.
+Print Assumptions ex_table_reading.
